@@ -68,7 +68,7 @@ impl Segment {
             offset = self.start_offset;
         }
 
-        let end_offset = offset + (count - 1) as u64;
+        let end_offset = std::cmp::min(offset + (count - 1) as u64, self.current_offset);
 
         // In case that the partition messages buffer is disabled, we need to check the unsaved messages buffer
         if self.unsaved_messages.is_none() {
